@@ -261,6 +261,39 @@ def corpus(tier):
             except Exception:  # noqa: BLE001
                 continue
             items.append((f"optable:{opn}{at or ''}:{TP.DataType.Name(dt)}", m.SerializeToString(), [("x", int(dt), tuple(shp)), ("y", int(dt), tuple(shp))]))
+    # the same operators with a CONSTANT operand on either side (negative / positive, 0-d / one-element 1-d): what inline_const renders
+    from onnx import numpy_helper as nh_
+    for opn in ("Add", "Sub", "Mul", "Div", "Pow"):
+        for cval, cshape in ((-2.0, ()), (2.0, ()), (-2.0, (1,)), (0.5, (1,))):
+            for const_first in (True, False):
+                ins_ = ["c", "x"] if const_first else ["x", "c"]
+                g = oh.make_graph([oh.make_node(opn, ins_, ["t"]), oh.make_node("Neg", ["t"], ["z"])], "optconst",
+                                  [oh.make_tensor_value_info("x", TP.FLOAT, [3])], [oh.make_tensor_value_info("z", TP.FLOAT, [3])],
+                                  [nh_.from_array(np.full(cshape, cval, dtype=np.float32), "c")])
+                m = oh.make_model(g, opset_imports=[oh.make_opsetid("", 18)], ir_version=9)
+                try:
+                    onnx.checker.check_model(m, full_check=True)
+                except Exception:  # noqa: BLE001
+                    continue
+                items.append((f"optconst:{opn}({'c,x' if const_first else 'x,c'}) c={cval}{list(cshape)}", m.SerializeToString(), [("x", int(TP.FLOAT), (3,))]))
+    # small constants that are used as an If-branch output or as the initial value of a Loop state variable (inline_const must
+    # still bind them)
+    def _cn(name, v):
+        return oh.make_node("Constant", [], [name], value=nh_.from_array(np.array(v, dtype=np.float32), name + "_v"))
+    tb_ = oh.make_graph([_cn("tc", [5.0, 6.0])], "then", [], [oh.make_tensor_value_info("tc", TP.FLOAT, [2])])
+    eb_ = oh.make_graph([oh.make_node("Neg", ["x"], ["e"])], "else", [], [oh.make_tensor_value_info("e", TP.FLOAT, [2])])
+    g_ = oh.make_graph([oh.make_node("If", ["cnd"], ["y0"], then_branch=tb_, else_branch=eb_), oh.make_node("Add", ["y0", "x"], ["y"])], "ifconst",
+                       [oh.make_tensor_value_info("x", TP.FLOAT, [2]), oh.make_tensor_value_info("cnd", TP.BOOL, [])], [oh.make_tensor_value_info("y", TP.FLOAT, [2])])
+    items.append(("constuse:if_branch_returns_constant", oh.make_model(g_, opset_imports=[oh.make_opsetid("", 18)], ir_version=9).SerializeToString(),
+                  [("x", int(TP.FLOAT), (2,)), ("cnd", int(TP.BOOL), ())]))
+    body_ = oh.make_graph([oh.make_node("Identity", ["ci"], ["co"]), oh.make_node("Add", ["st", "x"], ["so"])], "body",
+                          [oh.make_tensor_value_info("it", TP.INT64, []), oh.make_tensor_value_info("ci", TP.BOOL, []), oh.make_tensor_value_info("st", TP.FLOAT, [2])],
+                          [oh.make_tensor_value_info("co", TP.BOOL, []), oh.make_tensor_value_info("so", TP.FLOAT, [2])])
+    g_ = oh.make_graph([_cn("init", [1.0, 2.0]), oh.make_node("Loop", ["n", "", "init"], ["y"], body=body_)], "loopconst",
+                       [oh.make_tensor_value_info("x", TP.FLOAT, [2])], [oh.make_tensor_value_info("y", TP.FLOAT, [2])],
+                       [nh_.from_array(np.array(2, dtype=np.int64), "n")])
+    items.append(("constuse:loop_state_starts_at_constant", oh.make_model(g_, opset_imports=[oh.make_opsetid("", 18)], ir_version=9).SerializeToString(),
+                  [("x", int(TP.FLOAT), (2,))]))
     from vp.gen import models as GM
     n_gen = 25 if tier == "quick" else 300
     for i in range(n_gen):
